@@ -376,7 +376,74 @@ def check_c20(tier, seed):
     shutil.rmtree(wd, ignore_errors=True)
     return 1 if bad else 0
 
+def check_c17(tier, seed):
+    """C17: Wire.tla (framing buffer, dispatch, out-of-order completion, channel, single writer) exhaustive;
+    the real Builder/PluginDriver over in-memory pipes under systematic and random chunkings and completion
+    orders, judged by WireTrace.tla; the real binary's stdout framing under concurrent logging (Engine C)."""
+    from . import wiregen
+    t0 = time.time()
+    pid = "C17"
+    wd = f"{VERIF}/work/C17_{tier}"
+    shutil.rmtree(wd, ignore_errors=True); os.makedirs(wd)
+    run.cargo_build()
+    thorough = tier == "thorough"
+    g, d, _ = tlc_plain("WireMC.tla", "WireMC.cfg", wd)
+    js = wiregen.jobs(seed, 4000 if thorough else 500) + wiregen.cut_jobs(seed, 3000 if thorough else 300)
+    if not thorough:
+        # every single cut position is kept in quick too, but spread over the seeds: a third per run
+        cj = [j for j in js if j["run"] >= 100000 and len(j["steps"]) == 4]
+        keep = set(id(j) for k, j in enumerate(cj) if k % 3 == seed % 3)
+        js = [j for j in js if not (j["run"] >= 100000 and len(j["steps"]) == 4) or id(j) in keep]
+    for k, j in enumerate(js):
+        j["run"] = k + 1
+    chunks = run.split(js, 12)
+    outs = []
+    for k, ch in enumerate(chunks):
+        i = f"{wd}/j{k}.ndjson"; o = f"{wd}/t{k}.ndjson"
+        with open(i, "w") as f:
+            for j in ch:
+                f.write(json.dumps(j) + "\n")
+        pr = subprocess.run([run.VFH, "wire", i, o], capture_output=True, text=True)
+        if pr.returncode != 0:
+            raise run.ToolError("vfh wire failed: " + pr.stderr[-1500:])
+        outs.append(o)
+    from concurrent.futures import ThreadPoolExecutor
+    with ThreadPoolExecutor(max_workers=12) as ex:
+        res = list(ex.map(lambda ko: (ko[1],) + run.tlc_trace("WireTrace.tla", "WireTrace.cfg", ko[1], f"{wd}/wt{ko[0]}"), enumerate(outs)))
+    bad = []; nlines = 0
+    byrun = {j["run"]: j for j in js}
+    for o, rc, out in res:
+        nlines += sum(1 for _ in open(o))
+        if "No error has been found" not in out:
+            raise run.ToolError("WireTrace failed:\n" + out[-2000:])
+        for x in out.splitlines():
+            if "WIREVIOL" in x:
+                bad.append((int(x.split(",")[1]), x.strip()))
+    # Engine C: the real binary, chunked stdin, trace logging racing with replies
+    from . import e2e
+    e2e_stats = e2e.wire_check(seed, tier, wd)
+    bad += e2e_stats["violations"]
+    os.makedirs(REPLAYS, exist_ok=True)
+    for n, (runno, what) in enumerate(bad[:3]):
+        pth = f"{REPLAYS}/C17_{n}.json"
+        json.dump({"property": pid, "kind": "wire", "what": what, "job": byrun.get(runno)}, open(pth, "w"))
+        print(f"VIOLATION property=C17 replay={pth}")
+    samples = [{"msgs": js[0]["msgs"], "steps": js[0]["steps"][:12]}, {"msgs": js[-1]["msgs"], "steps": js[-1]["steps"][:12]}]
+    cov = {"states": d, "transitions": g, "traces_validated_against_impl": len(js) + e2e_stats["runs"], "samples": samples,
+           "wire_runs": len(js), "trace_lines_judged": nlines, "real_binary_runs": e2e_stats["runs"],
+           "real_binary_frames": e2e_stats["frames"], "exhaustive": False,
+           "rule": "Wire.tla: every chunking and completion order of a 3-message stream with lone newlines and multi-byte characters "
+                   "(exhaustive); real driver: every single cut position of a 3-message stream (over three seeds in quick, all in "
+                   "thorough), random triple cuts, byte-by-byte windows, random chunk sizes, all with shuffled handler completion "
+                   "orders and error results; real binary: chunked stdin with trace logging on, stdout split on blank lines"}
+    write_evidence(pid, tier, seed, "model_checking", cov, time.time() - t0, len(bad),
+                   ["lightningd never sends an empty line inside a message", "in-memory pipes stand in for stdin/stdout in Engine A-wire; Engine C uses real pipes"])
+    shutil.rmtree(wd, ignore_errors=True)
+    return 1 if bad else 0
+
 def check(pid, tier, seed):
+    if pid == "C17":
+        return check_c17(tier, seed)
     if pid == "C20":
         return check_c20(tier, seed)
     if pid == "C18":
